@@ -70,6 +70,8 @@ type machine struct {
 	failed     int // failed steps followed by another step
 	muts       int
 	lastFailed bool
+	elems      []string
+	clos       []string
 }
 
 func newMachine(kind string) *machine {
@@ -78,7 +80,15 @@ func newMachine(kind string) *machine {
 
 func (m *machine) close() { m.sub.close(); m.ref.Close() }
 
-var closure = ops.Closure(gen.Names, 3)
+// closure of the elements seen in the history so far (grows with the history; the default names are always in)
+func (m *machine) closure(op ops.Op) []string {
+	n := len(m.elems)
+	m.elems = gen.Elements(append(m.elems, op.P, op.P2)...)
+	if len(m.elems) != n || m.clos == nil {
+		m.clos = ops.Closure(m.elems, 3)
+	}
+	return m.clos
+}
 
 func mutating(k string) bool {
 	switch k {
@@ -155,7 +165,7 @@ func (m *machine) step(op ops.Op) (string, string) {
 		return base + ":tree-differs", fmt.Sprintf("after %v (os=%v impl=%v): %s", op, rr, sr, d)
 	}
 	// existence and kind over the closure (finds entries a walk cannot reach)
-	for _, p := range closure {
+	for _, p := range m.closure(op) {
 		_, inRef := rs[p]
 		if inRef {
 			continue
@@ -209,10 +219,14 @@ func run(t *testing.T, kind string) {
 	vf.Check(t, kind, func(rt *rapid.T, rec *vf.Rec) {
 		m := newMachine(kind)
 		defer m.close()
+		names := gen.Alphabet(rt)
+		if len(names) == 3 && names[1] != "ab" {
+			rec.Class("exotic-alphabet")
+		}
 		rt.Repeat(map[string]func(*rapid.T){
 			"step": func(rt *rapid.T) {
 				tree := gen.TreeOf(ops.SnapOS(m.ref.Root))
-				op := gen.Op(rt, tree, gen.Names, 3, false)
+				op := gen.Op(rt, tree, names, 3, false)
 				s := sit.Of(op, tree)
 				if k := knownSig(kind, s); k != "" {
 					rec.Excluded(k)
